@@ -3,6 +3,7 @@ CONSTANTS
   ShtabBreaksDefaults = {"A", "B"}
   ClearOnError = TRUE
   Full = FALSE
+  Help = FALSE
   Emit = FALSE
 INVARIANT Balanced
 INVARIANT FramesExplainCtx
